@@ -17,6 +17,7 @@ EXCLUDE_FILE = os.path.join(SIMDIR, "c20_exclude.json")
 # or misaligned access still dies under ASan.  vptr checks (bad downcasts on the polymorphic models) are cheap and stay on.
 SAN_FLAGS = ["-O0", "-fsanitize=address,undefined", "-fno-sanitize=alignment,null", "-fno-sanitize-recover=all", "-D_GLIBCXX_DEBUG"]
 PLAIN_FLAGS = ["-O0", "-g1"]
+TSAN_FLAGS = ["-O1", "-g1", "-fsanitize=thread", "-DVRT_CONCURRENT"]
 WORKER_TIMEOUT = 1800
 
 
@@ -154,6 +155,8 @@ def plan_text(runs):
                 out.append("MODE %d" % o["mode"])
             elif "exitop" in o:
                 out.append("EXITOP %s %d" % (o["name"], o["seed"]))
+            elif "pair" in o:
+                out.append("PAIR %s %d %s %d %d" % (o["name"], o["seed"], o["pair"], o["seed2"], o["reps"]))
             elif "rep" in o:
                 out.append("REP %s %d %d %d" % (o["name"], o["seed"], o["rep"], o["vary"]))
             else:
@@ -178,6 +181,11 @@ def classify_death(rc, stderr):
     m = re.search(r"ERROR: AddressSanitizer: ([\w-]+)", s)
     if m:
         return "asan:" + m.group(1), s
+    m = re.search(r"WARNING: ThreadSanitizer: ([\w -]+?) \(pid", stderr)
+    if m:
+        loc = re.search(r"Location is ([^\n]{0,160})", stderr)
+        fn = re.findall(r"#\d+ (PhQ::[^\n(<]{0,80})", stderr)
+        return "tsan:" + m.group(1).strip().replace(" ", "-"), (stderr[m.start():m.start() + 1200] + ("\n" + loc.group(0) if loc else ""))
     m = re.search(r"runtime error: ([^\n]{0,120})", s)
     if m:
         msg = re.sub(r"0x[0-9a-f]+", "ADDR", m.group(1))
@@ -464,6 +472,22 @@ def gen_threads(h, rng, nplans):
     return plans
 
 
+def gen_pairs(h, rng, thorough):
+    """true concurrency (ThreadSanitizer build): every op instance against itself on two threads at once (same
+    function, different operands), plus seeded pairs of different ops that share a facility (printing, tables)"""
+    names = sorted(h.ops)
+    ops = []
+    reps = 12
+    for n in names:
+        ops.append({"name": n, "seed": rng.u64(), "pair": n, "seed2": rng.u64(), "reps": reps})
+    printers = [n for n in names if re.search(r"\|(Print|JSON|XML|YAML)\(", n) or n.startswith("Base|") or h.ops[n] & 1 or n.startswith("Unit::")]
+    for _ in range(20000 if thorough else 3000):
+        a = rng.choice(printers if rng.below(3) else names)
+        b = rng.choice(printers if rng.below(3) else names)
+        ops.append({"name": a, "seed": rng.u64(), "pair": b, "seed2": rng.u64(), "reps": reps})
+    return ops
+
+
 def gen_at_exit(h, rng, nplans):
     """one fresh process per plan: a few ordinary calls, then calls made from the destructor of a namespace-scope
     object defined after the library's includes (after main returned)"""
@@ -551,7 +575,7 @@ def reproduces(exe, plan_ops, want_cls, want_name, valgrind=False, env=None):
 def precise_fault(o, ev):
     """turn an enumerating fault into the single fault position the worker reported"""
     o = dict(o)
-    if "rep" in o or "exitop" in o:
+    if "rep" in o or "exitop" in o or "pair" in o:
         return o
     f = ev.get("fault", "")
     m = re.match(r"^(alloc|allocfrom):(\d+)$", f)
@@ -581,7 +605,7 @@ def minimise(exe, run_ops, ev, valgrind=False, budget=120, env=None):
         used[0] += 1
         return reproduces(exe, list(sub_prefix) + [tgt], cls, name, valgrind, env) is not None
     tgt = target
-    if "rep" in target or "exitop" in target:
+    if "rep" in target or "exitop" in target or "pair" in target:
         if fails([], target):
             return [target], used[0]
         keep, n_ = common.ddmin(prefix, lambda sub: fails(sub, target), budget=budget)
@@ -633,7 +657,9 @@ def replay(path, quiet=False):
         plan = json.load(f)
     names = {o["name"] for o in plan["plan"] if "name" in o}
     valgrind = plan.get("build") == "plain-memcheck"
-    h = Harness(common.scratch("c20r"), PLAIN_FLAGS if valgrind else SAN_FLAGS, only=names, ntus=1, label="replay")
+    names |= {o["pair"] for o in plan["plan"] if "pair" in o}
+    flags_ = PLAIN_FLAGS if valgrind else (TSAN_FLAGS if plan.get("build") == "tsan" else SAN_FLAGS)
+    h = Harness(common.scratch("c20r"), flags_, only=names, ntus=1, label="replay")
     err = h.build()
     if err:
         if not quiet:
@@ -682,14 +708,17 @@ def main(tier, seed):
     hs = Harness(os.path.join(root, "san"), SAN_FLAGS, subset=subset, label="san", ntus=nsan)
     psub = subset if thorough else {"double": subset["double"]}
     hp = Harness(os.path.join(root, "plain"), PLAIN_FLAGS, subset=psub, label="plain", ntus=max(1, common.NCPU - nsan))
-    # the two builds share the 16 cores; the sanitizer build is the long pole
-    errs = pmap(lambda h: h.build(), [hs, hp], 2)
+    # concurrent build (ThreadSanitizer): classes x double + all unit/enum/base/model ops in quick, everything in thorough
+    tsub = subset if thorough else {"double": subset["double"]}
+    ht = Harness(os.path.join(root, "tsan"), TSAN_FLAGS, subset=tsub, label="tsan", ntus=max(2, common.NCPU // 3))
+    # the builds share the cores; the sanitizer build is the long pole
+    errs = pmap(lambda h: h.build(), [hs, hp, ht], 3)
     for e in errs:
         if e:
             log("INFRASTRUCTURE: " + e)
             return 2
-    log("built: %d op instances (sanitizer build %.0fs, plain build %.0fs); %d ops excluded as uncompilable on the pinned tree, %d dropped now" % (
-        len(hs.ops), hs.build_s, hp.build_s, len(hs.gen.excluded_hit), len(hs.dropped)))
+    log("built: %d op instances (sanitizer build %.0fs, plain build %.0fs, thread-sanitizer build %.0fs); %d ops excluded as uncompilable on the pinned tree, %d dropped now" % (
+        len(hs.ops), hs.build_s, hp.build_s, ht.build_s, len(hs.gen.excluded_hit), len(hs.dropped)))
     cat = hs.cat
     all_events = []      # (build, run_ops, event)
     totals = {}
@@ -719,7 +748,7 @@ def main(tier, seed):
                 continue
             o = ops_[oi]
             n = r["n"]
-            if "rep" in o or "exitop" in o:
+            if "rep" in o or "exitop" in o or "pair" in o:
                 continue
             if o["fault"] == "alloceach":
                 for k in range(n):
@@ -793,6 +822,9 @@ def main(tier, seed):
     execute("two-threads", hs.exe, [(700000 + i, ops_) for i, ops_ in enumerate(thr)], fresh=True)
     axp = gen_at_exit(hs, rng, int(os.environ.get("VERIF_C20_ATEXIT", "6000" if thorough else "700")))
     execute("at-exit", hs.exe, [(800000 + i, ops_) for i, ops_ in enumerate(axp)], fresh=True)
+    # 4d. true concurrency under ThreadSanitizer
+    pairs = gen_pairs(ht, rng, thorough)
+    execute("concurrent-pairs", ht.exe, chunked(pairs, 850000, size=256), build="tsan")
     # 5. uninitialised reads: plain build under memcheck, every instance once + the sweeps
     vg_ops = gen_enumeration(hp, rng, draws=(6 if thorough else 2), faults=False) + gen_sweeps(hp, cat)
     vg_ops += [o for o in gen_value_classes(hp, rng) if thorough or o["vc"] in (0, 2, 5, 9)]
@@ -838,7 +870,7 @@ def main(tier, seed):
         for fam, items in unknown[:2]:      # minimise and report up to two families per class
             b, ops_, e = min(items, key=lambda it: it[2]["op"])
             valgrind = b == "plain-memcheck"
-            exe = hp.exe if valgrind else hs.exe
+            exe = hp.exe if valgrind else (ht.exe if b == "tsan" else hs.exe)
             env_ = e.get("env")
             plan_ops, used = minimise(exe, ops_, e, valgrind, env=env_)
             name = ops_[e["op"]]["name"]
@@ -892,7 +924,7 @@ def main(tier, seed):
         "determinism_sample": {"plans": len(det_runs), "worker_assignments": [1, min(16, common.NCPU)], "identical": True},
         "violation_groups": len(groups), "known_findings_matched": len(known_lines),
         "components": {"real": ["all PhQ headers from /repo/include (working tree)", "libstdc++ (strings, streams, containers, stod family) in debug mode",
-                                "ASan", "UBSan (without alignment/null)", "valgrind memcheck on a plain -O0 build"],
+                                "ASan", "UBSan (without alignment/null)", "valgrind memcheck on a plain -O0 build", "ThreadSanitizer on a third build (two real threads inside the library at once)"],
                        "simulated": ["allocator's decision to fail (replaced global operator new)", "stream sink (std::streambuf with byte budget, 3 failure modes, preset state bits/flags, null buffer)"],
                        "absent_no_seam": ["clock", "network", "disk", "threads"]},
         "build_seconds": {"sanitizer": round(hs.build_s, 1), "plain": round(hp.build_s, 1)},
